@@ -70,7 +70,7 @@ func checkC13(c *Ctx) {
 				}
 			}
 		}
-		c.Check(bad == "" && n >= 3, "C13-R9", "force-dirty-marker:writers", "-", fmt.Sprintf("%d stores of lastMain = 0 %s", n, bad))
+		c.Check(bad == "" && n >= 2, "C13-R9", "force-dirty-marker:writers", "-", fmt.Sprintf("%d stores of lastMain = 0 %s", n, bad))
 	}
 	checkCleanMarkCallers(c, p, "C13-R1")
 	c.asRule("C08-R2", "C13-R7", func() { c08Pairs(c, p, cbMethods(p)) })
@@ -91,7 +91,7 @@ func checkC13(c *Ctx) {
 				ws[fn.Name()] = valName(st.Val)
 			}
 			eachInstr(fn, func(in ssa.Instruction) {
-				if st, ok := in.(*ssa.Store); ok && typeName(st.Val.Type()) == "tcell.cell" {
+				if st, ok := in.(*ssa.Store); ok && typeName(st.Val.Type()) == "tcell.cell" && !freshCellLiteral(st.Val) {
 					whole += fn.Name() + " stores a whole cell at " + p.pos(in.Pos()) + "; "
 				}
 			})
